@@ -251,9 +251,9 @@ func c04SchedPhase(s *c04State) {
 	// the fixed window configurations, in both tiers: every schedule of the depth-0 mode, and
 	// every schedule of the lock-aware mode with at most laBound preemptions (laBudget
 	// schedules per program at most; the evidence says which programs were exhausted)
-	laBound, laBudget := 2, 3000
+	laBound, laBudget, laSmallBound := 2, 6000, 1
 	if c.Tier == "thorough" {
-		laBound, laBudget = 3, 60000
+		laBound, laBudget, laSmallBound = 3, 200000, 2
 	}
 	if v := os.Getenv("C04_LA_BOUND"); v != "" {
 		laBound = atoi(v)
@@ -294,7 +294,7 @@ func c04SchedPhase(s *c04State) {
 	c.Add("sched.window.programs-exhausted", wex)
 	c.Add("sched.lockaware.window.programs", len(lprogs))
 	c.Add("sched.lockaware.window.programs-exhausted-under-bound", lex)
-	exhausted := 0
+	exhausted, lsmall := 0, 0
 	for pi := 0; pi < nsmall; pi++ {
 		p := c04ExpandStats(c04Small(c04GenProgRaw(c.Rng, pi), 2+pi%2, 1+(pi/2)%2))
 		n, ex := c04DFS(s, fmt.Sprintf("d%d", pi), p, budget, c04SchedOpt{})
@@ -302,9 +302,18 @@ func c04SchedPhase(s *c04State) {
 		if ex {
 			exhausted++
 		}
+		// the same generated program in lock-aware mode, with a smaller preemption bound
+		n, ex = c04DFS(s, fmt.Sprintf("D%d", pi), p, budget, c04SchedOpt{lockAware: true, bound: laSmallBound})
+		c.Add("sched.lockaware.dfs.schedules", n)
+		if ex {
+			lsmall++
+		}
 	}
 	c.Add("sched.dfs.programs", nsmall)
 	c.Add("sched.dfs.programs-exhausted", exhausted)
+	c.Add("sched.lockaware.dfs.programs", nsmall)
+	c.Add("sched.lockaware.dfs.programs-exhausted-under-bound", lsmall)
+	c.Extra["dfs_lockaware_bound"] = fmt.Sprintf("generated small programs: at most %d preemptions per schedule, at most %d schedules per program", laSmallBound, budget)
 	for pi := 0; pi < nbig; pi++ {
 		p := c04GenProg(c.Rng, pi)
 		c04RandSched(s, fmt.Sprintf("q%d", pi), p, samples)
